@@ -7,6 +7,8 @@ import (
 	"sort"
 	"sync"
 	"time"
+
+	"github.com/prometheus/prometheus/model/labels"
 )
 
 // PSeries is one series of a presence model: present at time t iff the cell of t is in Cells.
@@ -150,7 +152,7 @@ func (p *Presence) ServeQueryRange(w http.ResponseWriter, r *http.Request) {
 	var buf bytes.Buffer
 	buf.WriteString(`{"status":"success","data":{"resultType":"matrix","result":[`)
 	first := true
-	for i := range p.Series {
+	for _, i := range p.promOrder() {
 		s := &p.Series[i]
 		var vals bytes.Buffer
 		n := 0
@@ -183,6 +185,18 @@ func (p *Presence) ServeQueryRange(w http.ResponseWriter, r *http.Request) {
 	w.Header().Set("Content-Type", "application/json")
 	w.WriteHeader(200)
 	_, _ = w.Write(buf.Bytes())
+}
+
+// promOrder: indexes of the series in the order Prometheus returns them (labels.Compare on the label sets)
+func (p *Presence) promOrder() []int {
+	idx := make([]int, len(p.Series))
+	for i := range idx {
+		idx[i] = i
+	}
+	sort.SliceStable(idx, func(a, b int) bool {
+		return labels.Compare(labels.FromMap(p.Series[idx[a]].Labels), labels.FromMap(p.Series[idx[b]].Labels)) < 0
+	})
+	return idx
 }
 
 func (p *Presence) ServeQuery(w http.ResponseWriter, r *http.Request) {
